@@ -28,6 +28,7 @@ import (
 	"github.com/youzan/ZanRedisDB/common"
 	"github.com/youzan/ZanRedisDB/pkg/fileutil"
 	"github.com/youzan/ZanRedisDB/pkg/pbutil"
+	"github.com/youzan/ZanRedisDB/pkg/verifhook"
 	"github.com/youzan/ZanRedisDB/raft"
 	"github.com/youzan/ZanRedisDB/raft/raftpb"
 	"github.com/youzan/ZanRedisDB/wal/walpb"
@@ -625,6 +626,7 @@ func (w *WAL) cut() error {
 	if err := w.tail().Truncate(off); err != nil {
 		return err
 	}
+	verifhook.Point("wal.cut.afterTruncate")
 	if err := w.sync(!w.optimizedFsync); err != nil {
 		return err
 	}
@@ -663,13 +665,16 @@ func (w *WAL) cut() error {
 		return err
 	}
 
+	verifhook.Point("wal.cut.beforeRename")
 	if err = os.Rename(newTail.Name(), fpath); err != nil {
 		return err
 	}
+	verifhook.Point("wal.cut.afterRename")
 	if err = fileutil.Fsync(w.dirFile); err != nil {
 		return err
 	}
 
+	verifhook.Point("wal.cut.afterDirFsync")
 	// reopen newTail with its new path so calls to Name() match the wal filename format
 	newTail.Close()
 
@@ -843,6 +848,7 @@ func (w *WAL) Save(st raftpb.HardState, ents []raftpb.Entry) error {
 			return err
 		}
 	}
+	verifhook.Point("wal.save.betweenEntriesAndState")
 	if err := w.saveState(&st); err != nil {
 		return err
 	}
